@@ -539,6 +539,14 @@ func writeReplay(dir, prop string, o *Obligation, fc *FnCtx, note string) string
 	for _, in := range o.Inputs {
 		if v, ok := o.Model[in.Term]; ok {
 			inputs[in.Path] = renderValue(v, lits)
+			if in.Sort == sStr {
+				if b, ok := o.Model["(isPct "+in.Term+")"]; ok {
+					inputs[in.Path+"#isPct"] = b
+				}
+				if n, ok := o.Model["(pctNum "+in.Term+")"]; ok {
+					inputs[in.Path+"#pctNum"] = n
+				}
+			}
 		}
 	}
 	qfile := filepath.Join(dir, base+".smt2")
